@@ -178,9 +178,11 @@ func cmdCheck(repo, prop, tier string) int {
 		if ct.Lib {
 			continue
 		}
-		for _, pr := range ct.allProps() {
-			if pr == prop {
+		// a function is proved on its own for this property when one of its postconditions belongs to it
+		for _, cl := range ct.Clauses {
+			if (cl.Kind == "ensures" || cl.Kind == "canary") && inProps(ct.clauseProps(cl), prop) {
 				keys = append(keys, k)
+				break
 			}
 		}
 	}
